@@ -1,7 +1,9 @@
 ------------------------------- MODULE Stats -------------------------------
 (* C16 - tear-sheet PnL, win rate and profit factor match the closed       *)
 (*       positions; every instrument / asset key carries the sheet of ITS  *)
-(*       history.                                                          *)
+(*       history - including the RATIO figures of the instrument sheet:    *)
+(*       rate of return, Sharpe, Sortino and Calmar ratio (section         *)
+(*       "ratio figures" below, with its own header).                      *)
 (* C17 - running dataset statistics equal the statistics of the whole      *)
 (*       dataset.                                                          *)
 (*                                                                         *)
@@ -24,12 +26,20 @@
 (* definitions only (Pattern B replay): its accumulators are free to be    *)
 (* organised differently as long as every reported figure agrees.          *)
 (*                                                                         *)
-(* Actions: AddClosed(i,pnl,cost)  InstrumentState::update_from_trade ->   *)
+(* Actions: AddClosed(i,pnl,cost,t) InstrumentState::update_from_trade ->  *)
 (*                                 TearSheetGenerator::update_from_position*)
+(*                                 (t: exit time, seconds since the start  *)
+(*                                 of the instrument's session)            *)
 (*          AddBalance(a,total)    AssetState::update_from_balance ->      *)
 (*                                 TearSheetAssetGenerator::update_from_balance *)
-(*          Generate               TradingSummaryGenerator::generate /     *)
-(*                                 TearSheetGenerator::generate             *)
+(*          Generate(rf,iv)        TradingSummaryGenerator::generate(iv) / *)
+(*                                 TearSheetGenerator::generate(rf, iv):   *)
+(*                                 risk-free return rf, target interval iv *)
+(*          Reset(i)               TearSheetGenerator::reset(start): a new *)
+(*                                 session of instrument i - every figure  *)
+(*                                 afterwards is that of the positions     *)
+(*                                 closed since, times counted from the    *)
+(*                                 new start                               *)
 (*          AddValue(x)            DataSetSummary::update (directly, or as  *)
 (*                                 PnLReturns::update does: every return    *)
 (*                                 into `total`, the negative ones also     *)
@@ -41,14 +51,16 @@
 (*                                 every later figure is still the figure   *)
 (*                                 of the whole history (PersistIsStutter)  *)
 (*                                                                         *)
-(* A closed position is (pnl, cost) with cost = price_entry_average *      *)
-(* quantity_abs_max > 0; its return is pnl / cost                          *)
+(* A closed position is (pnl, cost, t) with cost = price_entry_average *   *)
+(* quantity_abs_max > 0 and exit time t; its return is pnl / cost          *)
 (* (engine/state/position.rs calculate_pnl_return).                        *)
 (*                                                                         *)
-(* Nothing is left nondeterministic: the figures of C16 / C17 are          *)
-(* functions of the history.  Out of scope (not constrained): Sharpe /     *)
-(* Sortino / Calmar / rate of return, the drawdown fields (C18,            *)
-(* Drawdown.tla), recurrence_relation_m itself.                            *)
+(* PnL, win rate, profit factor, the dataset statistics: nothing is left   *)
+(* nondeterministic, they are functions of the history.  The ratio figures *)
+(* are functions of the history too, except at the three points listed in  *)
+(* the header of the section "ratio figures".  Out of scope (not           *)
+(* constrained): the drawdown fields of the sheets (C18, Drawdown.tla),    *)
+(* recurrence_relation_m itself.                                           *)
 EXTENDS Integers, Sequences, FiniteSets, TLC, Rational
 
 CONSTANTS
@@ -60,10 +72,13 @@ CONSTANTS
   Vals,       \* dataset values (integers; the harness concretises k * 10^e)
   MaxClosed,  \* bound on closed positions (all instruments together)
   MaxBal,     \* bound on balance updates (all assets together)
-  MaxVals     \* bound on dataset length
+  MaxVals,    \* bound on dataset length
+  Gaps,       \* increments of an instrument's exit time (seconds, integers >= 0)
+  RFs,        \* risk-free returns (rationals)
+  Ivs         \* target intervals of a generated sheet (names, a subset of DOMAIN IvLen)
 
 VARIABLES
-  closed,     \* [Instr -> Seq([pnl, cost])]   history of closed positions
+  closed,     \* [Instr -> Seq([pnl, cost, t])] history of closed positions (t: exit time)
   acc,        \* [Instr -> accumulator]        running PnLReturns
   bal,        \* [Asset -> Seq(Int)]           history of balance totals
   out,        \* <<>> or <<summary>>           what the last call returned, if it was Generate
@@ -85,14 +100,18 @@ ISumOver(f, I) == IF I = {} THEN 0
 Idx(s)  == 1..Len(s)
 Perm(s) == {[k \in Idx(s) |-> s[p[k]]] : p \in Permutations(Idx(s))}
 
+\* the losing returns: what PnLReturns keeps in `losses`
+NegOf(v) == SelectSeq(v, LAMBDA x : x < 0)
+
 \* optional rational
 NoneR    == [has |-> FALSE, v |-> Zero]
 SomeR(r) == [has |-> TRUE, v |-> r]
 
 -----------------------------------------------------------------------------
 (* C16 - the tear sheet of a history h of closed positions                  *)
-Pos(pnl, cost) == [pnl |-> pnl, cost |-> cost]
-Ret(c)         == Frac(c.pnl, c.cost)
+Pos(pnl, cost, t) == [pnl |-> pnl, cost |-> cost, t |-> t]
+Ret(c)            == Frac(c.pnl, c.cost)
+LastT(h)          == IF Len(h) = 0 THEN 0 ELSE h[Len(h)].t     \* time of the latest exit (0 = session start)
 
 WinIdx(h)  == {k \in Idx(h) : ~IsNeg(Ret(h[k]))}     \* return not negative
 GainIdx(h) == {k \in Idx(h) : IsPos(Ret(h[k]))}
@@ -123,29 +142,6 @@ SummaryOf(cl, bl) == [instruments |-> [i \in Instr |-> TearSheet(cl[i])],
                       assets      |-> [a \in Asset |-> AssetSheet(bl[a])]]
 Summary == SummaryOf(closed, bal)
 
-(* the running accumulators and the calculators, as the code has them       *)
-Acc0 == [pnl |-> 0, n |-> 0, sum |-> Zero, ln |-> 0, lsum |-> Zero]
-AccUpd(a, c) ==                                   \* PnLReturns::update
-  LET r == Ret(c)
-  IN [pnl  |-> a.pnl + c.pnl,
-      n    |-> a.n + 1,
-      sum  |-> Add(a.sum, r),
-      ln   |-> IF IsNeg(r) THEN a.ln + 1 ELSE a.ln,
-      lsum |-> IF IsNeg(r) THEN Add(a.lsum, r) ELSE a.lsum]
-
-WinRateCalc(wins, total) ==                       \* WinRate::calculate
-  IF total = 0 THEN NoneR ELSE SomeR(Frac(AbsI(wins), AbsI(total)))
-PFCalc(p, l) ==                                   \* ProfitFactor::calculate
-  IF IsZero(p) /\ IsZero(l) THEN PF("none", Zero)
-  ELSE IF IsZero(l) THEN PF("max", Zero)
-  ELSE IF IsZero(p) THEN PF("min", Zero)
-  ELSE PF("num", Div(Abs(p), Abs(l)))
-
-\* the arguments the property requires generate() to pass
-SheetOfAcc(a) == [pnl           |-> R(a.pnl),
-                  win_rate      |-> WinRateCalc(a.n - a.ln, a.n),
-                  profit_factor |-> PFCalc(Sub(a.sum, a.lsum), a.lsum)]
-
 -----------------------------------------------------------------------------
 (* C17 - the statistics of a dataset v (integers), batch definitions        *)
 ISum(v)   == ISumOver(v, Idx(v))
@@ -174,6 +170,235 @@ WfUpd(w, x) ==
 WfVar(w) == IF w.n < 1 THEN Zero ELSE Div(w.m, R(w.n))               \* calculate_population_variance
 
 -----------------------------------------------------------------------------
+(* C16 - the RATIO figures of the instrument tear sheet                     *)
+(*                                                                          *)
+(* Transcribes  barter/src/statistic/metric/rate_of_return.rs, sharpe.rs,   *)
+(* sortino.rs, calmar.rs (calculate / scale), statistic/time.rs (the        *)
+(* intervals) and the argument choice of TearSheetGenerator::generate       *)
+(* (summary/instrument.rs).  Every figure is DEFINED from the whole history *)
+(* h of closed positions (pnl, cost, exit time), the risk-free return rf    *)
+(* and the target interval iv:                                              *)
+(*   mean     = mean of the returns            (MeanOf / VarOf of C17 on    *)
+(*   var      = population variance of them     the returns over their      *)
+(*   lossvar  = population variance of the      common denominator)         *)
+(*              NEGATIVE returns (0 when there are fewer than two)          *)
+(*   maxdd    = depth of the largest drawdown, completed or in progress, of *)
+(*              the cumulative PnL curve: the reference decomposition of    *)
+(*              Drawdown.tla (C18), instantiated here                       *)
+(*   period   = max(time of the LATEST exit - session start, 1 s); 1 s for  *)
+(*              an empty history                                            *)
+(*   excess   = mean - rf                                                   *)
+(*   rate of return   = mean                          x  target / period    *)
+(*   Sharpe  ratio    = excess / sqrt(var)            x  sqrt(target/period)*)
+(*   Sortino ratio    = excess / sqrt(lossvar)        x  sqrt(target/period)*)
+(*   Calmar  ratio    = excess / maxdd                x  sqrt(target/period)*)
+(* with the documented conventions of `calculate` when the risk is zero:    *)
+(*   Sharpe : var = 0      -> Decimal::MAX  (whatever the excess: the code  *)
+(*            and its unit test know this one case only)                    *)
+(*   Sortino: lossvar = 0  -> MAX if excess > 0, MIN if excess < 0, 0 if    *)
+(*   Calmar : maxdd = 0       excess = 0  ("very good" / "very bad" /       *)
+(*                            "neutral" in the doc comments and unit tests) *)
+(* Square roots are irrational: a figure is kept in SQUARED, FACTORED form  *)
+(*   [k, sign, sq, fac]   value = sign * sqrt(sq * fac)     for k = "num"   *)
+(*     sq  = excess^2 / var | excess^2 / lossvar | excess^2 / maxdd^2       *)
+(*     fac = target / period  (a reduced fraction of seconds: never         *)
+(*           multiplied into sq, TLC has 32-bit integers)                   *)
+(* so that the value laws  ratio^2 * variance = (mean - rf)^2  (with the    *)
+(* sign) and  scaled^2 * period = ratio^2 * target  are exact (Conventions).*)
+(* The rate of return is [v, fac] with value v * fac (linear scaling).      *)
+(* A sentinel (k = "MAX" / "MIN") stands for "better / worse than any       *)
+(* number": scaling by a positive factor keeps it what it is - in           *)
+(* particular it never changes its sign.                                    *)
+(*                                                                          *)
+(* LEFT OPEN (explicitly; everything else is a function of the history):    *)
+(*  1. a sentinel scaled DOWN (period longer than the target interval, the  *)
+(*     scale factor sqrt(target/period) is < 1): the code multiplies        *)
+(*     Decimal::MAX by the factor and reports a finite huge number; the     *)
+(*     documents do not say whether the sentinel or the product is meant.   *)
+(*     For a sentinel, `fac` is the lower end lo = min(1, target/period) of *)
+(*     the allowed magnitudes: any value of the sentinel's sign with        *)
+(*     magnitude in [MAX * sqrt(lo), MAX].  lo = 1 (scaled up or not at     *)
+(*     all): the sentinel itself, nothing else.                             *)
+(*  2. zero risk AND excess exactly zero in a history of three or more      *)
+(*     positions: the documented value is 0, but whether the code sees      *)
+(*     "equal" is decided by the decimal rounding of its running mean       *)
+(*     (which divides by 3, 6, 7 .. from the third position on): k = "any". *)
+(*     With at most two positions the decimal arithmetic is exact and 0 is  *)
+(*     required.                                                            *)
+(*  3. Calmar when the PnL curve declines from a running maximum that is    *)
+(*     not positive: a relative decline from a peak <= 0 is not defined     *)
+(*     (C18 speaks of curves with positive peaks only): k = "any".  A peak  *)
+(*     <= 0 that is not followed by a lower point has depth 0 on every      *)
+(*     reading and is constrained.                                          *)
+(* Assumed: exit times of one instrument are whole seconds and do not       *)
+(* decrease (the latest exit is the last one reported); risk-free returns   *)
+(* and returns are finite decimals.                                         *)
+
+\* the target intervals (statistic/time.rs), in seconds; Hours2 and Days500 stand for the
+\* custom TimeDelta intervals the binding uses
+IvLen == [Daily |-> 86400, Annual252 |-> 21772800, Annual365 |-> 31536000,
+          Hours2 |-> 7200, Days500 |-> 43200000]
+
+\* fraction arithmetic that cancels BEFORE it multiplies (module Rational multiplies first):
+\* no intermediate is larger than the reduced result
+MulX(a, b) == IF a[1] = 0 \/ b[1] = 0 THEN Zero
+              ELSE LET g1 == GCD(AbsI(a[1]), b[2])
+                       g2 == GCD(AbsI(b[1]), a[2])
+                   IN <<(a[1] \div g1) * (b[1] \div g2), (a[2] \div g2) * (b[2] \div g1)>>
+Inv(b)     == IF b[1] < 0 THEN <<-b[2], -b[1]>> ELSE <<b[2], b[1]>>          \* b # 0
+DivX(a, b) == MulX(a, Inv(b))
+AddX(a, b) == LET g == GCD(a[2], b[2])
+              IN Norm(a[1] * (b[2] \div g) + b[1] * (a[2] \div g), (a[2] \div g) * b[2])
+SubX(a, b) == AddX(a, Neg(b))
+Sq(a)      == <<a[1] * a[1], a[2] * a[2]>>
+
+\* ---- the base quantities of a history h
+RECURSIVE LCMOf(_)
+LCMOf(S)   == IF S = {} THEN 1
+              ELSE LET x == CHOOSE x \in S : TRUE  r == LCMOf(S \ {x}) IN (x \div GCD(x, r)) * r
+CostLCM(h) == LCMOf({h[k].cost : k \in Idx(h)})
+\* the returns over their common denominator CostLCM(h): integers, a dataset of C17
+RetInts(h) == [k \in Idx(h) |-> h[k].pnl * (CostLCM(h) \div h[k].cost)]
+MeanRet(h)    == IF Len(h) = 0 THEN Zero ELSE DivX(MeanOf(RetInts(h)), R(CostLCM(h)))
+VarRet(h)     == IF Len(h) = 0 THEN Zero ELSE DivX(VarOf(RetInts(h)), R(CostLCM(h) * CostLCM(h)))
+LossVarRet(h) == LET v == NegOf(RetInts(h))
+                 IN IF Len(v) = 0 THEN Zero ELSE DivX(VarOf(v), R(CostLCM(h) * CostLCM(h)))
+Period(h)     == IF LastT(h) > 1 THEN LastT(h) ELSE 1
+
+\* the cumulative PnL curve and its drawdowns: the reference decomposition of Drawdown.tla
+DDm == INSTANCE Drawdown WITH Values <- {}, NegMag <- {}, Gaps <- {}, MaxLen <- 0, MaxResets <- 0,
+                              curve <- <<>>, gen <- 0, emitted <- <<>>, seen <- 0, sess <- 0, last <- 0
+Curve(h) == [k \in Idx(h) |-> [t |-> h[k].t, v |-> ISumOver([j \in 1..k |-> h[j].pnl], 1..k)]]
+\* open point 3: a lower point behind a running maximum that is not positive, before the next one
+UndefinedDD(c) == \E p \in DDm!Records(c), j \in Idx(c) :
+                     /\ c[p].v <= 0 /\ p < j /\ c[j].v < c[p].v
+                     /\ \A r \in DDm!Records(c) : ~(p < r /\ r <= j)
+\* the depth of the largest drawdown, completed or in progress: by the reference sets of C18 ...
+MaxDepthRef(c) == LET S == DDm!ReportedFin(c)
+                  IN IF S = {} THEN Zero ELSE (CHOOSE d \in DDm!MaxSet(S) : TRUE).value
+\* ... and directly, the deepest decline of any period between two running maxima (the same value,
+\* MaxDepthIsRef; an order of magnitude cheaper for TLC to evaluate)
+MaxDepth(c) == IF Len(c) = 0 THEN Zero
+               ELSE LET Rs == DDm!Records(c)
+                        end(p) == LET later == {r \in Rs : r > p}
+                                  IN IF later = {} THEN Len(c) ELSE (CHOOSE r \in later : \A q \in later : r <= q) - 1
+                    IN DDm!RMaxOver([p \in Rs |-> DDm!Depth(c, p, end(p))], Rs)
+
+\* ---- figures
+FNum(s, sq) == [k |-> "num", sign |-> s, sq |-> sq, fac |-> One]
+FMax        == [k |-> "MAX", sign |-> 1,  sq |-> Zero, fac |-> One]
+FMin        == [k |-> "MIN", sign |-> -1, sq |-> Zero, fac |-> One]
+FAny        == [k |-> "any", sign |-> 0,  sq |-> Zero, fac |-> One]
+Ror(v)      == [v |-> v, fac |-> One]
+
+\* the sign cases of Sortino / Calmar at zero risk; n = number of positions (open point 2)
+SignCase(ex, n) == IF IsPos(ex) THEN FMax
+                   ELSE IF IsNeg(ex) THEN FMin
+                   ELSE IF n <= 2 THEN FNum(0, Zero) ELSE FAny
+\* XRatio::calculate, on the SQUARE of the risk (variance) resp. the risk itself (drawdown)
+SharpeCalc(rf, mean, var) ==
+  IF IsZero(var) THEN FMax
+  ELSE LET ex == SubX(mean, rf) IN FNum(Sign(ex), DivX(Sq(ex), var))
+SortinoCalc(rf, mean, lossvar, n) ==
+  LET ex == SubX(mean, rf)
+  IN IF IsZero(lossvar) THEN SignCase(ex, n) ELSE FNum(Sign(ex), DivX(Sq(ex), lossvar))
+CalmarCalc(rf, mean, maxdd, n) ==
+  LET ex == SubX(mean, rf)
+  IN IF IsZero(maxdd) THEN SignCase(ex, n) ELSE FNum(Sign(ex), DivX(Sq(ex), Sq(maxdd)))
+RorCalc(mean) == Ror(mean)
+
+\* XRatio::scale from an interval of `cur` seconds to one of `target` seconds: the value is
+\* multiplied by sqrt(target / cur) - the radicand factor by target / cur; a sentinel stays the
+\* sentinel, with its lower end moving down when the factor is < 1 (open point 1)
+ScaleFig(f, cur, target) ==
+  LET r == Frac(target, cur)
+  IN CASE f.k = "num"            -> [f EXCEPT !.fac = MulX(@, r)]
+       [] f.k \in {"MAX", "MIN"} -> [f EXCEPT !.fac = RMin(One, MulX(@, r))]
+       [] OTHER                  -> f
+\* RateOfReturn::scale: linear
+ScaleRor(f, cur, target) == [f EXCEPT !.fac = MulX(@, Frac(target, cur))]
+
+\* what the four figures depend on, of the history h (evaluated once per history: TLC does not
+\* remember the value of an operator application)
+Base(h) == LET c == Curve(h)  u == UndefinedDD(c)
+           IN [n |-> Len(h), mean |-> MeanRet(h), var |-> VarRet(h), lossvar |-> LossVarRet(h),
+               undef |-> u, maxdd |-> IF u THEN Zero ELSE MaxDepth(c), period |-> Period(h)]
+\* the four ratio figures of the sheet generate(rf, iv) reports for a history with base b
+SheetOfBase(b, rf, iv) ==
+  LET T == IvLen[iv]
+  IN [pnl_return    |-> ScaleRor(RorCalc(b.mean), b.period, T),
+      sharpe_ratio  |-> ScaleFig(SharpeCalc(rf, b.mean, b.var), b.period, T),
+      sortino_ratio |-> ScaleFig(SortinoCalc(rf, b.mean, b.lossvar, b.n), b.period, T),
+      calmar_ratio  |-> IF b.undef THEN FAny
+                        ELSE ScaleFig(CalmarCalc(rf, b.mean, b.maxdd, b.n), b.period, T)]
+RatioSheet(h, rf, iv) == SheetOfBase(Base(h), rf, iv)
+
+\* which row of the convention tables a figure comes from (coverage of the tables, signatures)
+SignName(ex) == IF IsPos(ex) THEN "pos" ELSE IF IsNeg(ex) THEN "neg" ELSE "zero"
+CaseOfBase(b, rf) ==
+  LET ex == SignName(SubX(b.mean, rf))
+  IN [sharpe_ratio  |-> IF IsZero(b.var) THEN "zero_std_dev:" \o ex ELSE "num",
+      sortino_ratio |-> IF IsZero(b.lossvar) THEN "zero_downside_dev:" \o ex ELSE "num",
+      calmar_ratio  |-> IF b.undef THEN "undefined_drawdown"
+                        ELSE IF IsZero(b.maxdd) THEN "zero_drawdown:" \o ex ELSE "num"]
+ScaleCaseOfBase(b, iv) == IF IvLen[iv] > b.period THEN "up" ELSE IF IvLen[iv] = b.period THEN "same" ELSE "down"
+
+-----------------------------------------------------------------------------
+(* the running accumulators and the calculators, as the code has them       *)
+\* Welford's recurrences (WfUpd of C17) on fractions: DataSetSummary::update of a return
+WfR0 == [n |-> 0, mean |-> Zero, m |-> Zero]
+WfUpdR(w, x) ==
+  LET n     == w.n + 1
+      mean2 == AddX(w.mean, DivX(SubX(x, w.mean), R(n)))
+      m2    == AddX(w.m, MulX(SubX(x, w.mean), SubX(x, mean2)))
+  IN [n |-> n, mean |-> mean2, m |-> m2]
+WfVarR(w) == IF w.n < 1 THEN Zero ELSE DivX(w.m, R(w.n))
+\* DrawdownGenerator::update on the PnL curve, MaxDrawdownGenerator::update with what it emits:
+\* peak, deepest decline since the peak (cur), deepest completed drawdown (best)
+DD0 == [has |-> FALSE, peak |-> 0, cur |-> Zero, best |-> Zero]
+DDUpd(d, v) ==
+  IF ~d.has THEN [d EXCEPT !.has = TRUE, !.peak = v]
+  ELSE IF v > d.peak THEN [d EXCEPT !.peak = v, !.cur = Zero, !.best = RMax(d.best, d.cur)]
+  ELSE IF d.peak = 0 THEN d                            \* checked_div by a zero peak: no decline recorded
+  ELSE LET c == Frac(d.peak - v, d.peak) IN [d EXCEPT !.cur = IF Gt(c, d.cur) THEN c ELSE d.cur]
+
+Acc0 == [pnl |-> 0, n |-> 0, sum |-> Zero, ln |-> 0, lsum |-> Zero,
+         w |-> WfR0, lw |-> WfR0, dd |-> DD0, tl |-> 0]
+AccUpd(a, c) ==                                   \* PnLReturns::update, TearSheetGenerator::update_from_position
+  LET r == Ret(c)
+  IN [pnl  |-> a.pnl + c.pnl,
+      n    |-> a.n + 1,
+      sum  |-> Add(a.sum, r),
+      ln   |-> IF IsNeg(r) THEN a.ln + 1 ELSE a.ln,
+      lsum |-> IF IsNeg(r) THEN Add(a.lsum, r) ELSE a.lsum,
+      w    |-> WfUpdR(a.w, r),
+      lw   |-> IF IsNeg(r) THEN WfUpdR(a.lw, r) ELSE a.lw,
+      dd   |-> DDUpd(a.dd, a.pnl + c.pnl),
+      tl   |-> c.t]
+
+WinRateCalc(wins, total) ==                       \* WinRate::calculate
+  IF total = 0 THEN NoneR ELSE SomeR(Frac(AbsI(wins), AbsI(total)))
+PFCalc(p, l) ==                                   \* ProfitFactor::calculate
+  IF IsZero(p) /\ IsZero(l) THEN PF("none", Zero)
+  ELSE IF IsZero(l) THEN PF("max", Zero)
+  ELSE IF IsZero(p) THEN PF("min", Zero)
+  ELSE PF("num", Div(Abs(p), Abs(l)))
+
+\* the arguments the property requires generate() to pass
+SheetOfAcc(a) == [pnl           |-> R(a.pnl),
+                  win_rate      |-> WinRateCalc(a.n - a.ln, a.n),
+                  profit_factor |-> PFCalc(Sub(a.sum, a.lsum), a.lsum)]
+\* ... and for the ratio figures: mean and variance of ALL returns for Sharpe, the variance of the
+\* LOSING returns for Sortino, the largest drawdown INCLUDING the one in progress for Calmar, the
+\* period from the session start to the latest exit
+RatiosOfAcc(a, rf, iv) ==
+  LET p == IF a.tl > 1 THEN a.tl ELSE 1  T == IvLen[iv]
+  IN [pnl_return    |-> ScaleRor(RorCalc(a.w.mean), p, T),
+      sharpe_ratio  |-> ScaleFig(SharpeCalc(rf, a.w.mean, WfVarR(a.w)), p, T),
+      sortino_ratio |-> ScaleFig(SortinoCalc(rf, a.w.mean, WfVarR(a.lw), a.n), p, T),
+      calmar_ratio  |-> ScaleFig(CalmarCalc(rf, a.w.mean, RMax(a.dd.best, a.dd.cur), a.n), p, T)]
+
+-----------------------------------------------------------------------------
 Ev(a, k, x, y) == [a |-> a, k |-> k, x |-> x, y |-> y]
 
 Init == /\ closed = [i \in Instr |-> <<>>]
@@ -187,12 +412,17 @@ Init == /\ closed = [i \in Instr |-> <<>>]
 NClosed == ISumOver([i \in Instr |-> Len(closed[i])], Instr)
 NBal    == ISumOver([a \in Asset |-> Len(bal[a])], Asset)
 
-AddClosed(i, pnl, cost) ==
-  /\ closed' = [closed EXCEPT ![i] = Append(@, Pos(pnl, cost))]
-  /\ acc'    = [acc EXCEPT ![i] = AccUpd(@, Pos(pnl, cost))]
+\* (the history part alone - the behaviour generator Gen_Stats takes its expectations from the
+\*  batch definitions and leaves the running accumulators, exact fractions that grow with the
+\*  length of the history, where they are)
+AddClosedH(i, pnl, cost, t) ==
+  /\ closed' = [closed EXCEPT ![i] = Append(@, Pos(pnl, cost, t))]
   /\ out'    = <<>>
   /\ last'   = Ev("AddClosed", i, pnl, cost)
   /\ UNCHANGED <<bal, vals, wf>>
+AddClosed(i, pnl, cost, t) ==
+  /\ AddClosedH(i, pnl, cost, t)
+  /\ acc'    = [acc EXCEPT ![i] = AccUpd(@, Pos(pnl, cost, t))]
 
 AddBalance(a, total) ==
   /\ bal'  = [bal EXCEPT ![a] = Append(@, total)]
@@ -200,10 +430,24 @@ AddBalance(a, total) ==
   /\ last' = Ev("AddBalance", a, total, 0)
   /\ UNCHANGED <<closed, acc, vals, wf>>
 
-Generate ==
-  /\ out'  = <<Summary>>
+\* the summary generate(rf, iv) returns: the sheets above plus, per instrument, the ratio figures
+FullSummary(cl, bl, rf, iv) ==
+  LET S == SummaryOf(cl, bl)
+  IN [rf |-> rf, iv |-> iv, instruments |-> S.instruments, assets |-> S.assets,
+      ratios |-> [i \in Instr |-> RatioSheet(cl[i], rf, iv)]]
+GenerateS(S) ==
+  /\ out'  = <<S>>
   /\ last' = Ev("Generate", "", 0, 0)
   /\ UNCHANGED <<closed, acc, bal, vals, wf>>
+Generate(rf, iv) == GenerateS(FullSummary(closed, bal, rf, iv))
+
+\* a new session of instrument i: TearSheetGenerator::reset
+ResetH(i) ==
+  /\ closed' = [closed EXCEPT ![i] = <<>>]
+  /\ out'    = <<>>
+  /\ last'   = Ev("Reset", i, 0, 0)
+  /\ UNCHANGED <<bal, vals, wf>>
+Reset(i) == ResetH(i) /\ acc' = [acc EXCEPT ![i] = Acc0]
 
 AddValue(x) ==
   /\ vals' = Append(vals, x)
@@ -216,17 +460,23 @@ Persist ==
   /\ last' = Ev("Persist", "", 0, 0)
   /\ UNCHANGED <<closed, acc, bal, out, vals, wf>>
 
-\* the losing returns: what PnLReturns keeps in `losses`
-NegOf(v) == SelectSeq(v, LAMBDA x : x < 0)
-
-AddClosedAny  == \E i \in Instr, p \in PnLs, c \in Costs : NClosed < MaxClosed /\ AddClosed(i, p, c)
+AddClosedAny  == \E i \in Instr, p \in PnLs, c \in Costs, g \in Gaps :
+                    NClosed < MaxClosed /\ AddClosed(i, p, c, LastT(closed[i]) + g)
 AddBalanceAny == \E a \in Asset, b \in Bals : NBal < MaxBal /\ AddBalance(a, b)
-GenerateAny   == out = <<>> /\ Generate
+GenerateAny   == out = <<>> /\ \E rf \in RFs, iv \in Ivs : Generate(rf, iv)
+ResetAny      == \E i \in Instr : closed[i] # <<>> /\ Reset(i)
 AddValueAny   == \E x \in Vals : Len(vals) < MaxVals /\ AddValue(x)
 
 PersistAny    == last.a # "Persist" /\ last.a # "Init" /\ Persist
 
 NextC16 == AddClosedAny \/ AddBalanceAny \/ GenerateAny \/ PersistAny
+\* ... with new sessions (a reset leads back to histories the model has anyway: the large models leave it
+\* to the small one and to SpecHist)
+NextC16R == NextC16 \/ ResetAny
+SpecC16R == Init /\ [][NextC16R]_vars
+\* the histories alone (the ratio laws are state formulas over them)
+NextHist == AddClosedAny \/ ResetAny
+SpecHist == Init /\ [][NextHist]_vars
 NextC17 == AddValueAny \/ PersistAny
 SpecC16 == Init /\ [][NextC16]_vars
 SpecC17 == Init /\ [][NextC17]_vars
@@ -235,17 +485,20 @@ SpecC17 == Init /\ [][NextC17]_vars
 (* C16 formulas                                                             *)
 TypeC16 ==
   /\ \A i \in Instr : \A k \in Idx(closed[i]) : closed[i][k].pnl \in PnLs /\ closed[i][k].cost \in Costs
+  /\ \A i \in Instr : \A k \in Idx(closed[i]) : closed[i][k].t >= (IF k = 1 THEN 0 ELSE closed[i][k - 1].t)
   /\ \A a \in Asset : \A k \in Idx(bal[a]) : bal[a][k] \in Bals
   /\ Len(out) <= 1
 
 \* a store / restore changes no figure, now or later (the figures are functions of the histories)
 PersistIsStutter == [][last'.a = "Persist" =>
                          /\ SummaryOf(closed', bal') = SummaryOf(closed, bal) /\ acc' = acc /\ out' = out
+                         /\ closed' = closed          \* hence every ratio figure, for every rf and interval
                          /\ DataSet(vals') = DataSet(vals) /\ DataSet(NegOf(vals')) = DataSet(NegOf(vals)) /\ wf' = wf]_vars
 
 \* a generated summary is the summary of the histories, key by key
 GenerateIsBatch == out # <<>> =>
   /\ \A i \in Instr : out[1].instruments[i] = TearSheet(closed[i])
+  /\ \A i \in Instr : out[1].ratios[i] = RatioSheet(closed[i], out[1].rf, out[1].iv)
   /\ \A a \in Asset : out[1].assets[a] = AssetSheet(bal[a])
 
 \* the running accumulators with the required arguments give the batch sheet
@@ -282,6 +535,93 @@ Additive == [][last'.a = "AddClosed" =>
                PnL(closed'[last'.k]) = PnL(closed[last'.k]) + last'.x]_vars
 LatestBalance == [][last'.a = "AddBalance" =>
                AssetSheet(bal'[last'.k]) = [has |-> TRUE, total |-> last'.x]]_vars
+
+\* ---- the ratio figures
+\* the running accumulators with the arguments generate() must pass give the batch figures
+\* (Calmar wherever the batch figure is defined - open point 3)
+AccRatiosS(i, b, rf, iv) ==
+  LET r == RatiosOfAcc(acc[i], rf, iv)
+  IN /\ r.pnl_return = b.pnl_return /\ r.sharpe_ratio = b.sharpe_ratio /\ r.sortino_ratio = b.sortino_ratio
+     /\ b.calmar_ratio.k # "any" => r.calmar_ratio = b.calmar_ratio
+
+\* the convention tables and the value laws, figure by figure
+RiskLaw(f, ex, risk2, n, T, p) ==      \* risk2: the square of the risk; T target, p period (seconds)
+  /\ f.k \in {"num", "MAX", "MIN", "any"}
+  /\ ~IsZero(risk2) => /\ f.k = "num" /\ f.sign = Sign(ex)
+                       /\ MulX(f.sq, risk2) = Sq(ex)                  \* ratio^2 * risk^2 = (mean - rf)^2
+  /\ f.k = "num" => MulX(f.fac, R(p)) = R(T)                           \* scaled^2 * period = ratio^2 * target
+  /\ f.k \in {"MAX", "MIN"} => /\ f.sign = (IF f.k = "MAX" THEN 1 ELSE -1)    \* a sentinel keeps its sign
+                               /\ f.fac = (IF T >= p THEN One ELSE Frac(T, p))
+  /\ f.k = "any" => IsZero(risk2) /\ IsZero(ex) /\ n >= 3
+SignTable(f, ex, n) ==                  \* zero risk: Sortino, Calmar
+  /\ IsPos(ex) => f.k = "MAX"
+  /\ IsNeg(ex) => f.k = "MIN"
+  /\ (IsZero(ex) /\ n <= 2) => f.k = "num" /\ f.sign = 0 /\ IsZero(f.sq)
+ConventionsS(i, b, s, rf, iv) ==
+  LET h == closed[i]  ex == SubX(b.mean, rf)
+      n == Len(h)  T == IvLen[iv]  p == Period(h)
+  IN /\ s.pnl_return.v = b.mean /\ MulX(s.pnl_return.fac, R(p)) = R(T)
+     /\ RiskLaw(s.sharpe_ratio, ex, b.var, 0, T, p)
+     /\ IsZero(b.var) => s.sharpe_ratio.k = "MAX"
+     /\ RiskLaw(s.sortino_ratio, ex, b.lossvar, n, T, p)
+     /\ IsZero(b.lossvar) => SignTable(s.sortino_ratio, ex, n)
+     /\ b.undef => s.calmar_ratio = FAny
+     /\ ~b.undef => /\ RiskLaw(s.calmar_ratio, ex, Sq(b.maxdd), n, T, p)
+                    /\ IsZero(b.maxdd) => SignTable(s.calmar_ratio, ex, n)
+     \* the period: from the session start to the LATEST exit, at least one second
+     /\ p >= 1 /\ (n > 0 /\ h[n].t >= 1 => p = h[n].t) /\ \A k \in Idx(h) : h[k].t <= p
+\* when the risks are zero
+RiskZeroIffB(i, b) ==
+  LET h == closed[i]  c == Curve(h)  rets == {Ret(h[k]) : k \in Idx(h)}
+  IN /\ IsZero(b.var)     <=> Cardinality(rets) <= 1
+     /\ IsZero(b.lossvar) <=> Cardinality({r \in rets : IsNeg(r)}) <= 1
+     /\ Geq(b.var, Zero) /\ Geq(b.lossvar, Zero)
+     /\ ~b.undef => /\ Geq(b.maxdd, Zero)
+                    /\ IsZero(b.maxdd) <=> \A k \in Idx(c) : \A j \in 1..k : c[j].v <= c[k].v
+     /\ (Len(c) > 0 /\ c[1].v > 0) => ~b.undef                         \* positive peaks: always defined
+     /\ ~b.undef => b.maxdd = MaxDepthRef(c)                            \* MaxDepthIsRef
+\* scaling a sheet from one interval to another gives the sheet of the other interval
+ScaleLawS(bs, a, rf, iv) == \A iw \in Ivs \ {iv} :
+  LET b == SheetOfBase(bs, rf, iw)
+      same(f, g) == IF f.k = "num" THEN ScaleFig(f, IvLen[iv], IvLen[iw]) = g ELSE g.k = f.k /\ g.sign = f.sign
+  IN /\ ScaleRor(a.pnl_return, IvLen[iv], IvLen[iw]) = b.pnl_return
+     /\ same(a.sharpe_ratio, b.sharpe_ratio) /\ same(a.sortino_ratio, b.sortino_ratio)
+     /\ same(a.calmar_ratio, b.calmar_ratio)
+\* the order in which the positions were closed (at the same exit times) does not matter for the
+\* rate of return, Sharpe and Sortino; Calmar depends on the path, the period on the latest exit
+\* (two neighbours exchanged: every history over the same exit times is a state of the model, so
+\*  the formula holding in all of them covers every permutation)
+SwapPC(h) == {[k \in Idx(h) |-> LET q == IF k = j THEN j + 1 ELSE IF k = j + 1 THEN j ELSE k
+                                IN Pos(h[q].pnl, h[q].cost, h[k].t)] : j \in 1..(Len(h) - 1)}
+OrderFreeRatiosB(i, bs) == \A g \in SwapPC(closed[i]) :
+  \* (number, mean, variances and period decide the three figures, for every rf and interval: SheetOfBase)
+  /\ Len(g) = bs.n /\ MeanRet(g) = bs.mean /\ VarRet(g) = bs.var /\ LossVarRet(g) = bs.lossvar /\ Period(g) = bs.period
+\* (one evaluation of Base per instrument and state serves all the laws)
+\* the laws as separate formulas ...
+PerSheet(L(_, _, _, _, _)) == \A i \in Instr : LET bs == Base(closed[i])
+                             IN \A rf \in RFs, iv \in Ivs : L(i, bs, SheetOfBase(bs, rf, iv), rf, iv)
+AccRatios       == PerSheet(LAMBDA i, bs, s, rf, iv : AccRatiosS(i, s, rf, iv))
+Conventions     == PerSheet(LAMBDA i, bs, s, rf, iv : ConventionsS(i, bs, s, rf, iv))
+ScaleLaw        == PerSheet(LAMBDA i, bs, s, rf, iv : ScaleLawS(bs, s, rf, iv))
+RiskZeroIff     == \A i \in Instr : RiskZeroIffB(i, Base(closed[i]))
+OrderFreeRatios == \A i \in Instr : OrderFreeRatiosB(i, Base(closed[i]))
+\* ... and as ONE invariant for the model checker (TLC does not remember the value of an operator
+\* application: one evaluation of Base per instrument and of the sheet per (rf, iv) serves all)
+RatioLaws == \A i \in Instr :
+  LET bs == Base(closed[i])
+  IN /\ RiskZeroIffB(i, bs) /\ OrderFreeRatiosB(i, bs)
+     /\ \A rf \in RFs, iv \in Ivs :
+          LET s == SheetOfBase(bs, rf, iv)
+          IN AccRatiosS(i, s, rf, iv) /\ ConventionsS(i, bs, s, rf, iv) /\ ScaleLawS(bs, s, rf, iv)
+\* an event for key k leaves every ratio figure of every other key unchanged
+KeyedRatios == [][\A i \in Instr : i # last'.k =>
+                    LET a == Base(closed[i])  b == Base(closed'[i])
+                    IN \A rf \in RFs, iv \in Ivs : SheetOfBase(b, rf, iv) = SheetOfBase(a, rf, iv)]_vars
+\* a reset starts a new session: the sheet of the empty history, whatever was closed before
+ResetIsFresh == [][last'.a = "Reset" =>
+                     /\ closed'[last'.k] = <<>> /\ acc'[last'.k] = Acc0
+                     /\ \A rf \in RFs, iv \in Ivs : RatiosOfAcc(acc'[last'.k], rf, iv) = RatioSheet(<<>>, rf, iv)
+                     /\ \A i \in Instr : i # last'.k => closed'[i] = closed[i] /\ acc'[i] = acc[i]]_vars
 
 -----------------------------------------------------------------------------
 (* C17 formulas                                                             *)
